@@ -619,6 +619,28 @@ impl StagingStore for FsOcflStore {
         Ok(())
     }
 
+    /// Rewrites the version declaration of a staged object that has not been committed yet so
+    /// that it matches the spec version of its inventory.
+    fn stage_object_declaration(&self, inventory: &Inventory) -> Result<()> {
+        let version = SpecVersion::try_from_inventory_type(&inventory.type_declaration)?;
+        let object_root = PathBuf::from(&inventory.storage_path);
+        let expected = version.object_namaste().filename;
+
+        let old_namastes = find_files(&object_root, OBJECT_NAMASTE_FILE_PREFIX)?;
+
+        if !old_namastes
+            .iter()
+            .any(|name| name.to_str() == Some(expected))
+        {
+            write_object_namaste(&object_root, version)?;
+            for old in old_namastes {
+                util::remove_file_ignore_not_found(&object_root.join(old))?;
+            }
+        }
+
+        Ok(())
+    }
+
     /// Copies a file in the staging area
     fn stage_file_copy(
         &self,
